@@ -40,6 +40,8 @@ type C07Scenario struct {
 	// Redial: instead of two DialAndSend calls: DialWithContext, (switch,) DialWithContext again
 	// without a Close in between, Send, Close.
 	Redial bool `json:"redial,omitempty"`
+	// DialFail: the n-th dial fails without a connection (the Client then tries its fallback port).
+	DialFail int `json:"dialFail,omitempty"`
 }
 
 type c07 struct{ cache map[string][]C07Scenario }
@@ -233,6 +235,70 @@ func (p *c07) build(seed uint64, tier string) []C07Scenario {
 			}
 		}
 	}
+	if DialSeam {
+		// go-mail's own dialers (no WithDialContextFunc): implicit TLS through its tls.Dialer, the
+		// fallback port behind WithSSLPort(true) — where the peer may speak TLS or plain SMTP —
+		// and SetSSL(true) between two dials of one Client
+		plainPeer := func(u, pw string) refsmtpd.Config {
+			return refsmtpd.Config{Caps: []string{"8BITMIME", authCaps("PLAIN", "LOGIN", "CRAM-MD5")}, Auth: refsmtpd.AuthCfg{User: u, Pass: pw, Salt: []byte("c07salt"), Iter: 4}}
+		}
+		for _, auth := range []string{"", "PLAIN", "LOGIN", "AUTODISCOVER", "SCRAM-SHA-256-PLUS", "CUSTOM-PLAIN", "XOAUTH2", "CRAM-MD5"} {
+			for _, host := range hosts {
+				for _, cert := range []string{"valid", "wrongname", "untrusted", "garbage"} {
+					for _, ver := range []string{"1.2", "1.3"} {
+						for _, mode := range []string{"default-dialer", "default-dialer-fallback", "default-dialer-fallback-plain-peer", "default-dialer-plain-peer"} {
+							if strings.Contains(mode, "plain-peer") && (cert != "valid" || ver != "1.3") {
+								continue
+							}
+							if tier != "thorough" && ver == "1.2" && cert != "valid" {
+								continue
+							}
+							idx++
+							user := fmt.Sprintf("u%dX%x", idx, r.Uint64()&0xffffff)
+							pass := fmt.Sprintf("Pw%dZ%016xq", idx, r.Uint64())
+							beh := "tls-ok"
+							if cert != "valid" {
+								beh = "cert-" + cert
+							}
+							sc := C07Scenario{Label: fmt.Sprintf("implicit|%s|%s|%s|auth-offer=%d|tls%s|%s", auth, host, beh, len(allMechs), ver, mode),
+								Client: ClientCfg{Host: host, TLSPolicy: "implicit", AuthType: auth, User: user, Pass: pass, TimeoutMs: 3000, DefaultDialer: true},
+								Server: refsmtpd.Config{Caps: []string{"8BITMIME", authCaps(allMechs...)}, ImplicitTLS: true, TLS: refsmtpd.TLSCfg{Cert: cert, Version: ver},
+									Auth: refsmtpd.AuthCfg{User: user, Pass: pass, Salt: []byte("c07salt"), Iter: 4}},
+								Sched: sim.Derive(seed, 7, uint64(idx))}
+							if strings.Contains(mode, "fallback") {
+								sc.Client.SSLPort, sc.DialFail = true, 1
+							}
+							if strings.Contains(mode, "plain-peer") {
+								sc.Server = plainPeer(user, pass)
+							}
+							out = append(out, sc)
+						}
+					}
+				}
+				// SetSSL(true) between two dials; the second peer speaks TLS, or plain SMTP
+				for _, first := range []string{"none", "opportunistic", "mandatory"} {
+					for _, peer2 := range []string{"tls", "plain"} {
+						for _, redial := range []bool{false, true} {
+							idx++
+							user := fmt.Sprintf("u%dX%x", idx, r.Uint64()&0xffffff)
+							pass := fmt.Sprintf("Pw%dZ%016xq", idx, r.Uint64())
+							acfg := refsmtpd.AuthCfg{User: user, Pass: pass, Salt: []byte("c07salt"), Iter: 4}
+							sc := C07Scenario{Label: fmt.Sprintf("%s>implicit|%s|%s|ssl-switch,peer2=%s,redial=%v|auth-offer=2|tls1.3|default-dialer", first, auth, host, peer2, redial),
+								Client:       ClientCfg{Host: host, TLSPolicy: first, AuthType: auth, User: user, Pass: pass, TimeoutMs: 3000, DefaultDialer: true},
+								Server:       refsmtpd.Config{Caps: []string{"8BITMIME", "STARTTLS", authCaps(allMechs...)}, TLS: refsmtpd.TLSCfg{Cert: "valid", Version: "1.3"}, Auth: acfg},
+								SwitchPolicy: "implicit", Redial: redial, Sched: sim.Derive(seed, 7, uint64(idx))}
+							second := plainPeer(user, pass)
+							if peer2 == "tls" {
+								second = refsmtpd.Config{Caps: []string{"8BITMIME", authCaps(allMechs...)}, ImplicitTLS: true, TLS: refsmtpd.TLSCfg{Cert: "valid", Version: "1.3"}, Auth: acfg}
+							}
+							sc.Second = &second
+							out = append(out, sc)
+						}
+					}
+				}
+			}
+		}
+	}
 	p.cache[key] = out
 	return out
 }
@@ -271,7 +337,7 @@ func (p *c07) Exec(t *testing.T, scAny any) Outcome {
 	send := &SendScenario{Client: sc.Client, Server: sc.Server, Op: "dialandsend", Sched: sc.Sched,
 		Batches: [][]MsgSpec{{SimpleMsg("c07")}}}
 	hook := func(e *NetEnv) {
-		if sc.Client.TLSPolicy == "implicit" && !sc.PlainDial {
+		if sc.Client.TLSPolicy == "implicit" && !sc.PlainDial && !sc.Client.DefaultDialer {
 			e.ImplicitTLS = true
 		}
 		if sc.Second != nil {
@@ -283,6 +349,7 @@ func (p *c07) Exec(t *testing.T, scAny any) Outcome {
 		send.Batches = append(send.Batches, []MsgSpec{SimpleMsg("c07b")})
 	}
 	send.SwitchPolicy = sc.SwitchPolicy
+	send.DialFail = sc.DialFail
 	if sc.Redial {
 		send.Op = "dial-redial-send"
 		send.Batches = [][]MsgSpec{{SimpleMsg("c07r")}}
@@ -471,13 +538,13 @@ func (p *c07) Shrink(scAny any) []any { return nil }
 
 func (p *c07) Info() PropInfo {
 	return PropInfo{
-		Rule: "enumeration: TLS policy {mandatory, opportunistic, none, implicit} x 15 auth configurations (none, all 13 SMTPAuthType values, custom PLAIN/LOGIN Auth values) x host {mx.sim.example, localhost, 127.0.0.1 (thorough: ::1)} x server behaviour {TLS fine; STARTTLS not advertised (and refused / nevertheless accepted); STARTTLS answered 454 / 554 / garbage / disconnect; certificate for another name / from an untrusted issuer / garbage bytes / stall instead of a handshake; EHLO refused} x advertised AUTH lists x the way the policy reaches the Client {WithTLSPolicy, SetTLSPolicy after a weaker policy, SetTLSPortPolicy on a Client with an explicit port and a weaker policy, WithPort then WithTLSPortPolicy, WithTLSPortPolicy twice} x {alone, with a sibling Client created for the host name the wrong certificate is valid for} x TLS 1.2 / 1.3; implicit TLS additionally with a dial function that returns a plain connection (quick: a third of the 1.2 cases and two AUTH lists per cell), plus the caller switching the policy between two dials (two DialAndSend calls, or DialWithContext twice without Close and then Send); each for DialAndSend of one message with unique high-entropy credentials; every run with a connection is non-trivial; distinct = distinct labels",
+		Rule: "enumeration: TLS policy {mandatory, opportunistic, none, implicit} x 15 auth configurations (none, all 13 SMTPAuthType values, custom PLAIN/LOGIN Auth values) x host {mx.sim.example, localhost, 127.0.0.1 (thorough: ::1)} x server behaviour {TLS fine; STARTTLS not advertised (and refused / nevertheless accepted); STARTTLS answered 454 / 554 / garbage / disconnect; certificate for another name / from an untrusted issuer / garbage bytes / stall instead of a handshake; EHLO refused} x advertised AUTH lists x the way the policy reaches the Client {WithTLSPolicy, SetTLSPolicy after a weaker policy, SetTLSPortPolicy on a Client with an explicit port and a weaker policy, WithPort then WithTLSPortPolicy, WithTLSPortPolicy twice} x {alone, with a sibling Client created for the host name the wrong certificate is valid for} x TLS 1.2 / 1.3; implicit TLS additionally with a dial function that returns a plain connection (quick: a third of the 1.2 cases and two AUTH lists per cell), plus the caller switching the policy between two dials (two DialAndSend calls, or DialWithContext twice without Close and then Send); and go-mail's own dialers (no WithDialContextFunc): implicit TLS through its tls.Dialer x certificate kinds, WithSSLPort(true) with a failing first dial and a TLS or plain-SMTP peer on the fallback port, SetSSL(true) between two dials with a TLS or plain-SMTP second peer; each for DialAndSend of one message with unique high-entropy credentials; every run with a connection is non-trivial; distinct = distinct labels",
 		Assumptions: []string{"cleartext = every byte the client wrote before the line STARTTLS that the server answered with 220 (inclusive); everything after it must be TLS records",
-			"implicit TLS is exercised through a dial function that wraps the simulated connection in tls.Client; go-mail's own tls.Dialer path needs a real socket and is not covered",
+			"implicit TLS is exercised both through a dial function that wraps the simulated connection in tls.Client and through go-mail's own tls.Dialer (dial seam of the scratch copy)",
 			"an XOAUTH2 token under an explicit no-TLS policy is recorded, not judged (the statement names PLAIN and LOGIN)"},
 		Real:        []string{"go-mail Client.tls / auth / authTypeAutoDiscover, smtp.Client.StartTLS, plainAuth/loginAuth guards, default tls.Config", "crypto/tls on both ends with a simulator CA"},
-		Stubbed:     []string{"TCP with a byte-exact tap", "SMTP/TLS server behaviour (scripted)", "clock", "crypto/rand", "trust store (SSL_CERT_FILE)"},
-		NotCovered:  []string{"default implicit-TLS dialer (tls.Dialer over net.Dialer)"},
+		Stubbed:     []string{"TCP with a byte-exact tap", "SMTP/TLS server behaviour (scripted)", "clock", "crypto/rand", "trust store (SSL_CERT_FILE)", "the socket under go-mail's default dialers (type names net.Dialer / tls.Dialer rewritten to simhook.NetDialer / simhook.TLSDialer in the scratch copy; TLSDialer.DialContext follows crypto/tls.(*Dialer).DialContext step by step, 25 lines)"},
+		NotCovered:  []string{"unix sockets"},
 		Exhaustive:  func(string) bool { return true },
 		QuickBudget: 100 * time.Second, ThoroughBudget: 25 * time.Minute,
 	}
